@@ -224,6 +224,28 @@ func genSignersEvent(r *Rng, ver string) *signersCase {
 				label += "-viaself"
 			}
 		}
+		// the other members a real membership event carries: none of them may change who has to sign
+		if r.Chance(35) {
+			switch r.Intn(6) {
+			case 0, 1:
+				c["third_party_invite"] = map[string]interface{}{"display_name": "bob", "signed": map[string]interface{}{
+					"mxid": target, "token": "tok", "signatures": map[string]interface{}{"id.example": map[string]interface{}{"ed25519:0": "c2ln"}}}}
+				label += "-tpi"
+			case 2:
+				c["third_party_invite"] = Pick(r, []interface{}{map[string]interface{}{}, nil, true, "x"})
+				label += "-tpiodd"
+			case 3:
+				c["is_direct"] = true
+				c["displayname"] = "Bob"
+				c["avatar_url"] = "mxc://hs1/abc"
+			case 4:
+				c["reason"] = "because"
+				c["org.matrix.msc4014.mxid_mapping"] = map[string]interface{}{"user_id": target}
+			case 5:
+				c["mxid_mapping"] = map[string]interface{}{"user_id": Pick(r, signerUsers), "user_room_key": "k", "signatures": map[string]interface{}{}}
+				label += "-mapping"
+			}
+		}
 		var content interface{} = c
 		if r.Chance(3) {
 			content = Pick(r, []interface{}{nil, "x", []int{1}, 5})
